@@ -45,6 +45,17 @@ func (m *apiModel) set(name string, v int64) {
 func apiSeqRun(res *core.Result, r *core.Rng, steps int, failing bool, prefix string) bool {
 	env := zygo.NewZlisp()
 	env.StandardSetup()
+	// a host function that applies its first argument to the rest and handles the failure itself
+	env.AddFunction("try9", func(e *zygo.Zlisp, name string, args []zygo.Sexp) (zygo.Sexp, error) {
+		f, ok := args[0].(*zygo.SexpFunction)
+		if !ok {
+			return zygo.SexpNull, fmt.Errorf("try9: not a function")
+		}
+		if _, err := e.Apply(f, args[1:]); err != nil {
+			return &zygo.SexpStr{S: "caught"}, nil
+		}
+		return &zygo.SexpStr{S: "fine"}, nil
+	})
 	m := &apiModel{vars: map[string]int64{}}
 	var hist []string
 	viol := func(key, detail string) bool {
@@ -57,7 +68,7 @@ func apiSeqRun(res *core.Result, r *core.Rng, steps int, failing bool, prefix st
 	for st := 0; st < steps; st++ {
 		kinds := []string{"eval", "load1", "load3", "exprs", "apply", "dup", "evalmacro", "evalfn", "loadpending"}
 		if failing {
-			kinds = append(kinds, "loadbad", "evalbad", "applybad", "macrofail", "lazyfail", "pendingthenbad", "parsebad", "runtimefail")
+			kinds = append(kinds, "loadbad", "evalbad", "applybad", "macrofail", "lazyfail", "pendingthenbad", "parsebad", "runtimefail", "hostabsorbs")
 		}
 		kind := kinds[r.N(len(kinds))]
 		name := m.newVar()
@@ -180,6 +191,15 @@ func apiSeqRun(res *core.Result, r *core.Rng, steps int, failing bool, prefix st
 			o = call(func() (zygo.Sexp, error) { return env.EvalString(t) })
 			m.set(name, val) // the definition before the failure stays
 			wantErr = true
+		case "hostabsorbs":
+			// the failure happens inside a Go builtin that re-entered the VM, applied by a host function that
+			// handles the error: the evaluation goes on as if the call had returned "caught"
+			inner := []string{"eval (quote (car 5))", "(fn [x] (car x)) 5", "map (fn [x] (car x)) [1 2]", "apply (fn [x] (aget [1] x)) [7]", "hget (hash a: 1) (quote (car 5)) 7", "eval (quote (let))", "addk 1", "(fn [] (undefinedapi9 1))"}[r.N(8)]
+			t := fmt.Sprintf("(def %s %d) (def r9 (try9 %s)) (list r9 (+ %s 1))\n", name, val, inner, name)
+			hist = append(hist, "EvalString "+strings.TrimSpace(t))
+			o = call(func() (zygo.Sexp, error) { return env.EvalString(t) })
+			m.set(name, val)
+			want = fmt.Sprintf(`("caught" %d)`, val+1)
 		case "runtimefail":
 			t := fmt.Sprintf("(def %s %d) (let [q 1] (for [(def i 0) (< i 3) (def i (+ i 1))] (addk (aget [1] 7) i)))\n", name, val)
 			hist = append(hist, "EvalString "+strings.TrimSpace(t))
